@@ -14,6 +14,7 @@ import ExoModel.Props.C01Data
 import ExoModel.Lemmas.DataStmtCell
 import ExoModel.Lemmas.DataStmtLift
 import ExoModel.Lemmas.DataStmtExpr
+import ExoModel.Lemmas.DataStmtCommute
 import ExoModel.Lemmas.FootprintFrame
 import ExoModel.Lemmas.ContextReach
 
@@ -631,5 +632,119 @@ theorem inline_assign_read_outside_unsound :
   cases ho'
   have := r.cells (0, 0)
   simp [CellRefines, heapGet, DsEx.σ₂] at this
+
+/-! ### commute_expr / left_reassociate_expr: one node rewritten at any data position -/
+
+section ExprRewrites
+variable {V : Type} [DataAlg V] [DataLaws V] (ext : String → List V → V)
+
+/-- a statement whose data right-hand side is exchanged for one of the same value (up to which
+    error) behaves the same -/
+theorem dataRhsWith_sound (P : Expr → Expr → Bool)
+    (hP : ∀ e e', P e e' = true → ∀ σ : State V, ExEq (evalD ext σ e) (evalD ext σ e'))
+    (s s' s'' : Stmt) (hshape : Rw.dataRhsWith P s' [s] = some [s'']) (σ : State V) :
+    ExEq (execS ext s σ) (execS ext s'' σ) := by
+  cases s with
+  | assign x idx rhs =>
+    cases s' <;> simp only [Rw.dataRhsWith] at hshape <;> try cases hshape
+    rename_i y jdx rhs'
+    split at hshape
+    · rename_i hp
+      simp only [Option.some.injEq, List.cons.injEq, and_true] at hshape
+      subst hshape
+      simp only [execS]
+      exact ExEq.bind_congr (hP _ _ hp σ) (fun _ => ExEq.refl _)
+    · cases hshape
+  | reduce x idx rhs =>
+    cases s' <;> simp only [Rw.dataRhsWith] at hshape <;> try cases hshape
+    rename_i y jdx rhs'
+    split at hshape
+    · rename_i hp
+      simp only [Option.some.injEq, List.cons.injEq, and_true] at hshape
+      subst hshape
+      simp only [execS]
+      exact ExEq.bind_congr (hP _ _ hp σ) (fun _ => ExEq.refl _)
+    · cases hshape
+  | writecfg c f rhs d =>
+    cases d with
+    | false => simp [Rw.dataRhsWith] at hshape
+    | true =>
+      cases s' <;> simp only [Rw.dataRhsWith] at hshape <;> try cases hshape
+      rename_i c' f' rhs' d'
+      split at hshape
+      · rename_i hp
+        simp only [Option.some.injEq, List.cons.injEq, and_true] at hshape
+        subst hshape
+        simp only [execS, if_true]
+        exact ExEq.bind_congr (hP _ _ hp σ) (fun _ => ExEq.refl _)
+      · cases hshape
+  | _ => simp [Rw.dataRhsWith] at hshape
+
+end ExprRewrites
+
+/-- `commute_expr`: the statement at the position differs from the original by swapping the
+    operands of one `+`/`*` node of its right-hand side (shape `Rw.commuteExprWith`, which is what
+    the tie checks) ⇒ equivalent procedures, up to real-number algebra -/
+theorem commute_expr_in_context (C : Ctx) (s s' s'' : Stmt) (nm : String) (args : List FnArg)
+    (preds : List Expr) (hshape : Rw.commuteExprWith s' [s] = some [s'']) :
+    EquivLaws (fun _ => False) (.mk nm args preds (C.fill [s])) (.mk nm args preds (C.fill [s''])) := by
+  refine equivLaws_of_reach_le C _ _ nm args preds (fun V _ _ ext σ₀ σ _ => ?_)
+  rw [execL_singleton, execL_singleton]
+  exact (dataRhsWith_sound ext Rw.commuteOnce (fun e e' h σ => commuteOnce_sound ext e e' h σ)
+    s s' s'' hshape σ).le
+
+/-- `y[0] = z[0] * (y[0] + 2)` with the inner `+` commuted, inside a loop -/
+example : EquivLaws (fun _ => False)
+    (.mk "p" [] [] ((Ctx.loop DsEx.i DsEx.zero (.lit (.int 3)) false .hole).fill
+      [.assign DsEx.y [DsEx.zero] (.binop .mul (.read DsEx.z [DsEx.zero])
+        (.binop .add (.read DsEx.y [DsEx.zero]) (DsEx.d 2)))]))
+    (.mk "p" [] [] ((Ctx.loop DsEx.i DsEx.zero (.lit (.int 3)) false .hole).fill
+      [.assign DsEx.y [DsEx.zero] (.binop .mul (.read DsEx.z [DsEx.zero])
+        (.binop .add (DsEx.d 2) (.read DsEx.y [DsEx.zero])))])) :=
+  commute_expr_in_context _ _
+    (.assign DsEx.y [DsEx.zero] (.binop .mul (.read DsEx.z [DsEx.zero])
+        (.binop .add (DsEx.d 2) (.read DsEx.y [DsEx.zero])))) _ _ _ _ (by
+    have h : Rw.commuteOnce (.binop .mul (.read DsEx.z [DsEx.zero])
+        (.binop .add (.read DsEx.y [DsEx.zero]) (DsEx.d 2))) (.binop .mul (.read DsEx.z [DsEx.zero])
+        (.binop .add (DsEx.d 2) (.read DsEx.y [DsEx.zero]))) = true := by decide +kernel
+    simp only [Rw.commuteExprWith, Rw.dataRhsWith, h, if_true])
+
+/-- the comparison rejects a `-` node and two swaps at once -/
+example : Rw.commuteOnce (.binop .sub (DsEx.d 1) (DsEx.d 2)) (.binop .sub (DsEx.d 2) (DsEx.d 1)) = false ∧
+    Rw.commuteOnce (.binop .add (.binop .add (DsEx.d 1) (DsEx.d 2)) (DsEx.d 3))
+      (.binop .add (DsEx.d 3) (.binop .add (DsEx.d 2) (DsEx.d 1))) = false := by decide +kernel
+
+/-- `left_reassociate_expr`: one node `a op (b op c)` turned into `(a op b) op c` -/
+theorem left_reassociate_expr_in_context (C : Ctx) (s s' s'' : Stmt) (nm : String)
+    (args : List FnArg) (preds : List Expr) (hshape : Rw.reassocExprWith s' [s] = some [s'']) :
+    EquivLaws (fun _ => False) (.mk nm args preds (C.fill [s])) (.mk nm args preds (C.fill [s''])) := by
+  refine equivLaws_of_reach_le C _ _ nm args preds (fun V _ _ ext σ₀ σ _ => ?_)
+  rw [execL_singleton, execL_singleton]
+  exact (dataRhsWith_sound ext Rw.reassocOnce (fun e e' h σ => reassocOnce_sound ext e e' h σ)
+    s s' s'' hshape σ).le
+
+example : EquivLaws (fun _ => False)
+    (.mk "p" [] [] (Ctx.hole.fill
+      [.reduce DsEx.y [DsEx.zero] (.binop .add (DsEx.d 1) (.binop .add (.read DsEx.z [DsEx.zero]) (DsEx.d 2)))]))
+    (.mk "p" [] [] (Ctx.hole.fill
+      [.reduce DsEx.y [DsEx.zero] (.binop .add (.binop .add (DsEx.d 1) (.read DsEx.z [DsEx.zero])) (DsEx.d 2))])) :=
+  left_reassociate_expr_in_context .hole _
+    (.reduce DsEx.y [DsEx.zero] (.binop .add (.binop .add (DsEx.d 1) (.read DsEx.z [DsEx.zero])) (DsEx.d 2)))
+    _ "p" [] [] (by
+    have h : Rw.reassocOnce (.binop .add (DsEx.d 1) (.binop .add (.read DsEx.z [DsEx.zero]) (DsEx.d 2)))
+        (.binop .add (.binop .add (DsEx.d 1) (.read DsEx.z [DsEx.zero])) (DsEx.d 2)) = true := by
+      decide +kernel
+    simp only [Rw.reassocExprWith, Rw.dataRhsWith, h, if_true])
+
+/-- **needed** (`DataLaws`): without commutativity the rewrite is wrong — a data algebra whose
+    `+` is "take the left operand" distinguishes `a + b` from `b + a` -/
+theorem commute_expr_needs_laws :
+    ∃ (inst : DataAlg Int), ¬ ExEq
+      (@evalD Int inst (fun _ _ => 0) ⟨[], [], [], []⟩ (.binop .add (DsEx.d 1) (DsEx.d 2)))
+      (@evalD Int inst (fun _ _ => 0) ⟨[], [], [], []⟩ (.binop .add (DsEx.d 2) (DsEx.d 1))) := by
+  refine ⟨⟨fun n _ => n, fun a _ => a, fun a _ => a, fun a _ => a, fun a _ => a, fun a => a⟩, fun h => ?_⟩
+  have := congrArg (fun o => match o with | some (some v) => v | _ => (99 : Int)) h
+  revert this
+  decide
 
 end Exo.C01
